@@ -113,6 +113,15 @@ def lift_initializers_to_constants(graph: ir.Graph) -> None:
 TypeSpec = Union[ir.TypeAndShape, Any]
 
 
+def _constant_key(value: int | float | bool | str) -> tuple[str, str]:
+    """Cache key of a Python scalar.
+
+    Python equality conflates 0, 0.0, -0.0 and False (and 1, 1.0 and True) and never equates
+    nan with itself; the tensors they become differ (sign of zero) or are identical (nan).
+    """
+    return (type(value).__name__, repr(value))
+
+
 def _resolve_type_spec(spec: TypeSpec) -> ir.TypeAndShape:
     """Convert a *TypeSpec* to an :class:`ir.TypeAndShape`.
 
@@ -611,7 +620,7 @@ class GraphBuilder(BuilderBase):
         if isinstance(value, (int, float, bool, str)):
             if dtype is None:
                 dtype = _PYTHON_TYPE_TO_DTYPE.get(type(value))
-            cache_key = (value, dtype)
+            cache_key = (_constant_key(value), dtype)
             if cache_key in root._constant_cache:
                 return root._constant_cache[cache_key]
             type_suffix = _dtype_suffix(dtype) if dtype is not None else ""
@@ -628,7 +637,7 @@ class GraphBuilder(BuilderBase):
         ):
             if dtype is None:
                 dtype = _PYTHON_TYPE_TO_DTYPE.get(type(value[0]))
-            cache_key = (tuple(value), dtype)
+            cache_key = (tuple(_constant_key(v) for v in value), dtype)
             if cache_key in root._constant_cache:
                 return root._constant_cache[cache_key]
             type_suffix = _dtype_suffix(dtype) if dtype is not None else ""
